@@ -19,14 +19,16 @@ INFO = {
         'exact form on the main branch; v within 2% of V on its asymptotic branch; each guard fires exactly below its documented constant '
         '(machine epsilon, 1e-5) and w\'s guard returns 1 below and 0 above zero; the denominator b = A - B of vt and wt is well conditioned, '
         '(A+B)*t <= 10*|A-B| - a necessary condition for the 1e-13/t accuracy budget, decided over the reals; its float consequence is what the '
-        'replay measures against mpmath; wt in [0, 1 + t^2] (M5/M6; the property\'s "inside [0,1] up to rounding" is claimed with this explicit slack).'),
+        'replay measures against mpmath; wt in [0, 1 + t^2] (M5/M6; the property\'s "inside [0,1] up to rounding" is claimed with this explicit slack); |wt - exact W~| <= 20t over the '
+        'reals on every path (same term on the main branch; on the branch where vt has switched to its asymptotic form and wt has not, '
+        'through M2, M2c, M7u and an anchor of phi).'),
     'bounds': {'quick': 'x in [-40, 40], t in [1e-8, 1e-2]; CDF x in [-37.5, 38]', 'thorough': 'same obligations, 3x solver budget, cvc5 re-check of the mode-E queries'},
-    'outside': ['w <= 1 (not derivable from the listed axioms); wt <= 1 exactly (proved: wt <= 1 + t^2)', 'the 1e-6 relative agreement of v and w with V and W in floats',
-                'the 20t + 1e-13/t bound for wt (cancellation analysis not encodable)', 'dense sweeps / ulp neighbourhoods (a solver covers the interval or does not)',
+    'outside': ['wt <= 1 exactly (proved: wt <= 1 + t^2)', 'the 1e-6 relative agreement of v and w with V and W in floats',
+                'the 1e-13/t rounding part of the wt bound (the 20t part is decided over the reals; cancellation analysis in floats not encodable)', 'dense sweeps / ulp neighbourhoods (a solver covers the interval or does not)',
                 'underflow (standard model of floating point without underflow); libm accuracy is an assumption (4 ulp)'],
     'stubs': ['statistics.erf / math.erf / math.erfc -> true function * (1+e), |e| <= 4 ulp (mode E)', 'common._normal -> Phi, phi applications (mode R)'],
-    'axioms': ['T0/T1', 'M1: phi(u) + u*Phi(u) > 0', 'M1u: u < 0 => -u*phi(u) < (u^2+1)*Phi(u)', 'M2: a < b => a(Phi(b)-Phi(a)) < phi(a)-phi(b) < b(Phi(b)-Phi(a))', 'M5/M6: the variance of a standard normal truncated to (a, b) lies in [0, ((b-a)/2)^2]',
-               'G: enclosures of Phi on the integer grid, 1e-9 relative; phi(1.02) >= 0.2371', 'M7: Phi(b)-Phi(a) >= (b-a)*min(phi(a),phi(b)); M4\'\': phi(u)/phi(l) = exp((l^2-u^2)/2) <= 1/(1-(l^2-u^2)/2) (conditioning obligation)', 'A5: |Phi(x+d)-Phi(x)| <= 1.01*Phi(x)*(|x|+1)*|d| for x <= 0, |d| <= 1e-6'],
+    'axioms': ['T0/T1', 'M1: phi(u) + u*Phi(u) > 0', 'M1u: u < 0 => -u*phi(u) < (u^2+1)*Phi(u)', 'M2: a < b => a(Phi(b)-Phi(a)) < phi(a)-phi(b) < b(Phi(b)-Phi(a))', 'M8 (Sampford): phi(u)*(phi(u) + u*Phi(u)) < Phi(u)^2, i.e. W < 1', 'M5/M6: the variance of a standard normal truncated to (a, b) lies in [0, ((b-a)/2)^2]',
+               'G: enclosures of Phi on the integer grid, 1e-9 relative; phi(1.02) >= 0.2371', 'M7: Phi(b)-Phi(a) >= (b-a)*min(phi(a),phi(b)); M4\'\': phi(u)/phi(l) = exp((l^2-u^2)/2) <= 1/(1-(l^2-u^2)/2) (conditioning obligation)', 'M2c: l < u <= 0 => the mean of Z on (l, u) is >= (l+u)/2 (increasing density); M7u: l < u <= 0 => Phi(u)-Phi(l) <= (u-l)*phi(u); G: phi(9.5) <= 1.1e-20', 'A5: |Phi(x+d)-Phi(x)| <= 1.01*Phi(x)*(|x|+1)*|d| for x <= 0, |d| <= 1e-6'],
     'assumptions': ['standard model of floating-point arithmetic (no underflow)', 'libm erf/erfc accurate to 4 ulp'],
 }
 
@@ -210,6 +212,13 @@ def run_fn(spec, ctx):
             asym = den is not None and eng.check(den >= eps, timeout=10000)[0] == 'unsat'
             main = den is not None and eng.check(den < eps, timeout=10000)[0] == 'unsat'
             obs.append(('guard', f'{fn}: guard fires exactly when Phi(x-t) < machine epsilon', None if (asym or main) else z3.BoolVal(True), ()))
+            if main and isinstance(out, core.Sym):
+                # over the reals the main branch must BE the mathematical function (the float part of the 1e-6 clause is outside)
+                Vx = P.pdf(core.Sym(x) - core.Sym(t)) / P.cdf(core.Sym(x) - core.Sym(t))
+                exf = Vx if fn == 'v' else Vx * (Vx + (core.Sym(x) - core.Sym(t)))
+                dd = core.lift(exf)
+                obs.append(('formula', f'{fn} equals the mathematical {fn.upper()} above the guard',
+                            None if core.is_zero(core.som(o - dd)) else o != dd, ()))
             if fn == 'v':
                 obs.append(('sign', 'v >= 0', o < 0, tuple(ax) + tuple(phi_anchor_axioms(eng, [-8]))))
                 if asym:
@@ -221,6 +230,9 @@ def run_fn(spec, ctx):
                                 tuple(ax2) + tuple(phi_anchor_axioms(eng, [-8]))))
             else:
                 obs.append(('sign', 'w >= 0', o < 0, tuple(ax)))
+                # M8 (Sampford): V(u)*(V(u)+u) < 1, i.e. phi*(phi + u*Phi) < Phi^2, instantiated at this path's argument
+                m8 = [p_ * (p_ + a_ * P_) < P_ * P_ for (a_, P_, p_) in pts if core.is_zero(core.som(a_ - xt))]
+                obs.append(('upperw', 'w <= 1', o > 1, tuple(ax) + tuple(m8)))
                 if asym:
                     val = out if not isinstance(out, core.Sym) else None
                     okv = val is not None and ((eng.check(x < 0, timeout=5000)[0] == 'unsat' and val == 0) or
@@ -263,6 +275,32 @@ def run_fn(spec, ctx):
                 anch = tuple(phi_anchor_axioms(eng, [-8.9]))
                 obs[-1] = ('sign', 'wt >= 0', o < 0, tuple(axm) + anch)
                 obs.append(('upper', 'wt <= 1 + t^2', o > 1 + t * t, tuple(axm) + anch))
+                # distance from the exact W~ (the main formula with the exact V~, no guards), over the reals: <= 20 t.
+                # On the main branch the two are the same term; where vt has switched to its asymptotic form but wt has not,
+                # wt - W~ = vt^2 - V~^2, bounded through M2 (V~ in [l, u]), M2c (monotone density: the truncated mean lies in the
+                # half of the interval nearer to zero), M7u (mass <= width * larger endpoint density) and one anchor of phi.
+                if 'l' in sel and 'u' in sel and isinstance(out, core.Sym):
+                    sx_, st_ = core.Sym(x), core.Sym(t)
+                    ax_ = abs(sx_)
+                    bb = P.cdf(st_ - ax_) - P.cdf(-st_ - ax_)
+                    aa = P.pdf(-st_ - ax_) - P.pdf(st_ - ax_)
+                    vte = (-aa if neg_side else aa) / bb
+                    ex = ((st_ - ax_) * P.pdf(st_ - ax_) + (st_ + ax_) * P.pdf(-st_ - ax_)) / bb + vte * vte
+                    e = core.lift(ex)
+                    if core.is_zero(core.som(o - e)):
+                        obs.append(('exactw', '|wt - exact W~| <= 20t (same term)', None, ()))
+                    else:
+                        (a_, P_, p_), (b_, Q_, q_) = sel['l'], sel['u']
+                        m_ = Q_ - P_
+                        Vv = z3.Real('Vtilde!mean')      # mean of Z on (l, u); V~ = +-mean
+                        axe = [p_ > 0, q_ > 0, m_ > 0, Vv * m_ == p_ - q_, a_ < Vv, Vv < b_,
+                               z3.Implies(b_ <= 0, 2 * Vv >= a_ + b_),                 # M2c
+                               z3.Implies(b_ <= 0, m_ <= 2 * t * q_),                  # M7u: mass <= width * phi(u) when u <= 0
+                               z3.Implies(b_ <= core.rv(-9.5), q_ <= core.rv(1.1e-20))]   # G: phi(9.5) = 1.0078e-20 (even, decreasing beyond)
+                        vt_e = core.lift(vte)
+                        axe.append(vt_e == (-Vv if neg_side else Vv))
+                        for nm, case in (('|x| <= 4.9', z3.And(pp <= core.rv(4.9))), ('|x| > 4.9', pp > core.rv(4.9))):
+                            obs.append(('exactw', f'|wt - exact W~| <= 20t, {nm}', z3.And(case, z3.Or(o - e > 20 * t, e - o > 20 * t)), tuple(axe)))
         if fn in ('vt', 'wt'):
             # conditioning of the denominator b = A - B: a necessary condition for the 1e-13/t accuracy budget of the
             # property is that the subtraction does not lose more than a factor ~10/t, i.e. (A + B) * t <= 10 * |A - B|.
@@ -359,6 +397,14 @@ def replay(cand):
         ex = (-a if xv < 0 else a) / b
         bad = abs(mp.mpf(got) - ex) >= 2 * T + mp.mpf('1e-12')
         det = f'= {got!r}, exact V~ = {mp.nstr(ex, 17)}, 2t = {2 * tv!r}'
+    elif clause == 'exactw':
+        AX = abs(X)
+        b = mp.ncdf(T - AX) - mp.ncdf(-T - AX)
+        a = mp.npdf(-T - AX) - mp.npdf(T - AX)
+        ex = ((T - AX) * mp.npdf(T - AX) + (T + AX) * mp.npdf(-T - AX)) / b + (a / b) ** 2
+        tolv = 20 * T + mp.mpf('1e-13') / T
+        bad = abs(mp.mpf(got) - ex) > tolv
+        det = f'= {got!r}, exact W~ = {mp.nstr(ex, 17)}, allowed deviation 20t + 1e-13/t = {mp.nstr(tolv, 5)}'
     elif clause == 'asym':
         ex = mp.npdf(X - T) / mp.ncdf(X - T)
         den = C.phi_major(xv - tv)
@@ -377,7 +423,10 @@ def replay(cand):
             tolv = 20 * T + mp.mpf('1e-13') / T
         bad = abs(mp.mpf(got) - ex) > tolv
         det = f'= {got!r}, exact value {mp.nstr(ex, 17)}, allowed deviation {mp.nstr(tolv, 5)}'
-    elif clause in ('guard', 'guardval') and fn in ('v', 'w'):
+    elif clause == 'upperw':
+        bad = got > 1 + 1e-12
+        det = f'= {got!r} > 1'
+    elif clause in ('guard', 'guardval', 'formula') and fn in ('v', 'w'):
         den = C.phi_major(xv - tv)
         V = mp.npdf(X - T) / mp.ncdf(X - T)
         ex = V if fn == 'v' else V * (V + (X - T))
